@@ -24,6 +24,10 @@ PROPS["C01"] = dict(
 def _rel_mem(pid, contract, ob):
     """Which obligations of the InMemoryStorage contracts are reported under which property."""
     kind, name, clause = ob["kind"], ob["name"], str(ob.get("clause") or "")
+    if getattr(contract, "file", "") == "optuna/study/_tell.py" and pid == "C20":
+        return ob["kind"] == "frame"      # tell never writes to a trial object that existed before the call
+    if getattr(contract, "file", "") != "optuna/storages/_in_memory.py":
+        return True     # functions outside the in-memory storage are tagged per property in their contracts
     if kind == "guarded-by":
         # an unguarded access to the best-trial cache also breaks C12 (lost update under concurrency)
         return pid == "C03" or (pid == "C12" and (ob.get("info") or {}).get("field") == "best_trial_id")
@@ -62,13 +66,13 @@ PROPS["C04"] = dict(
     not_covered=["RDB compare-and-set (SQL)", "schedules (via C03)"],
 )
 PROPS["C12"] = dict(
-    modules=["contracts.in_memory"], relevant=_rel_mem,
+    modules=["contracts.in_memory", "contracts.study"], relevant=_rel_mem,
     assumptions=LIB_ASSUMPTIONS + ["COMPLETE trials carry one non-NaN value per objective (precondition discharged at "
                                    "tell/add_trial call sites: _check_values_are_feasible, FrozenTrial._validate)"],
     not_covered=["RDB SQL ranking (models.py:189-237)"],
 )
 PROPS["C20"] = dict(
-    modules=["contracts.in_memory"], relevant=_rel_mem,
+    modules=["contracts.in_memory", "contracts.study", "contracts.tell"], relevant=_rel_mem,
     assumptions=LIB_ASSUMPTIONS + ["nested JSON-like attribute values are treated as immutable by deepcopy"],
     not_covered=["RDB/cached/gRPC getters (ORM/protobuf object construction)", "concurrent mutation during deepcopy"],
 )
@@ -182,6 +186,8 @@ PROPS["C20"]["witnesses"] = {"Trial.__init__:post/any/ret2": "witnesses.f8", "Tr
 def _rel_mixed(pid, contract, ob):
     if contract.file.endswith("_in_memory.py"):
         return _rel_mem(pid, contract, ob)
+    if contract.file == "optuna/study/_tell.py" and pid == "C20":
+        return ob["kind"] == "frame"      # tell never writes to a trial object that existed before the call
     if ob["kind"] == "guarded-by":
         return pid == "C03"
     name, clause = ob["name"], str(ob.get("clause") or "")
